@@ -33,6 +33,9 @@ func moreProps(m map[string]*propCfg) {
 	add(&propCfg{ID: "C14", Engine: "startsim", Level: "exploration", Families: []famShare{{gen.FamClose, 1}}, QProgs: 160, QK: 10, TProgs: 480, TK: 40,
 		Rule:      "generated programs with 0-12 closers (eager, lazy, named, unnamed); after a successful Run, App.Close runs inside the bubble; every closer parks inside its Close(); the scheduler releases them one at a time in a seed-chosen order, a seed-chosen subset returns errors; invariants are evaluated at every quiescent point. Non-trivial = at least two quiescent points during Close (>= 1 closer parked); distinct = distinct (program shape, release order / fault set hash).",
 		Technique: "deterministic simulation (closesim): App.Close inside a testing/synctest bubble, closers parked in their own callback and released in a seeded order; invariants at every quiescent point (bounded liveness without wall clock)"})
+	add(&propCfg{ID: "C11", Engine: "startsim", Level: "exploration", Families: []famShare{{gen.FamEmbed, 1}}, QProgs: 200, QK: 4, TProgs: 600, TK: 8,
+		Rule:      "twin programs: a flat program (wire / func / value / prop / prefix / custom-tagged fields declared directly) and its re-arrangement with the same fields inside anonymous, untagged, by-value embedded structs (depth 1-3, exported and unexported carriers); frame fields of every kind (untagged, unexported-but-tagged, foreign-tagged, inside a named struct field, inside a tagged embedded struct, inside an embedded pointer) carrying sentinels; 0-2 custom tag scanners that park inside the parallel scanning phase. Both twins run under the same picks. Non-trivial = the program has embedded points, frame or custom-tagged fields; distinct = distinct (program shape, registry path signature).",
+		Technique: "deterministic simulation (startsim): twin programs under identical schedules, custom scanners interleaved inside the parallel scanning phase; oracle: twin equivalence + frame sentinels + recording tag processor"})
 	add(&propCfg{ID: "C15", Engine: "startsim", Level: "exploration", Families: []famShare{{gen.FamCfgMerge, 0.8}, {gen.FamConfig, 0.2}}, QProgs: 240, QK: 4, TProgs: 640, TK: 8,
 		Rule:      "generated configurations: 1-4 sources (raw documents, real FileLoader on files in the run's scratch directory, real ArgsLoader over a simulated argv, simulated loaders of all order classes) with overlapping and disjoint key trees, added through SetConfigLoader / AddConfigLoader / SetConfig / AddLoaders in a generated order; rare source faults (missing file, directory, garbage, loader error, empty). Non-trivial = >= 2 active fault-free sources; distinct = distinct (program shape, registry path signature).",
 		Technique: "deterministic simulation (startsim, configuration slice): real loaders and binder under generated source sets and option sequences, injected source faults; oracle: reference deep merge in contract order"})
